@@ -8,39 +8,58 @@ open Mxl
 
 /-! ### with the facts of the repaired source the parameterised machine is the hand-written closure -/
 
-theorem passesCurrent_of_ok (g : Glue) (hg : GlueOk g = true) : g.passesCurrent = true := by
+theorem glueOk_facts (g : Glue) (hg : GlueOk g = true) :
+    g.lambdifyArgs = expectedGlue.lambdifyArgs ∧ g.callArgs = expectedGlue.callArgs ∧
+    g.valuesFrom = expectedGlue.valuesFrom ∧ g.compiledFrom = expectedGlue.compiledFrom ∧
+    g.matrix = expectedGlue.matrix ∧ g.watchesModel = true ∧ g.storesCache = true ∧
+    g.compileBeforeStore = true ∧
+    g.recompileOnChange = true ∧ g.storesValues = true ∧ g.compileInsideTry = true ∧ g.catchesAll = true ∧
+    g.fallbackNone = true ∧ g.integratorGetsJac = true ∧ g.onlyWhenRequested = true := by
   unfold GlueOk at hg
-  simp only [Bool.and_eq_true, beq_iff_eq] at hg
+  simp only [Bool.and_eq_true, beq_iff_eq, and_assoc] at hg
+  obtain ⟨h1, h2, h3, h4, h5, _, hw, hsc, hcb, h6, h7, h8, h9, h10, _, h12, h13, _⟩ := hg
+  exact ⟨h1, h2, h3, h4, h5, hw, hsc, hcb, h6, h7, h8, h9, h10, h12, h13⟩
+
+theorem passesCurrent_of_ok (g : Glue) (hg : GlueOk g = true) : g.passesCurrent = true := by
   unfold Glue.passesCurrent
-  rw [hg.1.1.1.1.1.1.1.1.1.1.1.1.2]
+  rw [(glueOk_facts g hg).2.1]
   rfl
 
-theorem flags_of_ok (g : Glue) (hg : GlueOk g = true) :
-    g.recompileOnChange = true ∧ g.storesValues = true ∧ g.compileInsideTry = true ∧ g.catchesAll = true ∧
-    g.fallbackNone = true ∧ g.integratorGetsJac = true ∧ g.onlyWhenRequested = true ∧ g.aligned = true := by
-  unfold GlueOk at hg
-  simp only [Bool.and_eq_true, beq_iff_eq] at hg
-  obtain ⟨⟨⟨⟨⟨⟨⟨⟨⟨⟨⟨⟨⟨h1, h2⟩, h3⟩, h4⟩, h5⟩, h6⟩, h7⟩, h8⟩, h9⟩, h10⟩, _⟩, h12⟩, h13⟩, _⟩ := hg
-  refine ⟨h6, h7, h8, h9, h10, h12, h13, ?_⟩
+theorem aligned_of_ok (g : Glue) (hg : GlueOk g = true) : g.aligned = true := by
+  obtain ⟨h1, h2, h3, h4, h5, _⟩ := glueOk_facts g hg
   unfold Glue.aligned
   simp only [Bool.and_eq_true, beq_iff_eq]
   refine ⟨⟨⟨⟨h1, ?_⟩, h3⟩, h4⟩, h5⟩
   rw [h2]; rfl
 
-theorem callG_eq_call (g : Glue) (hg : GlueOk g = true) (cl : JacClosure) (now : SContent) (t : Rat)
-    (xs : List Rat) : cl.callG g now t xs = cl.call now t xs := by
-  obtain ⟨h1, h2, _⟩ := flags_of_ok g hg
-  have h3 := passesCurrent_of_ok g hg
-  unfold JacClosure.callG JacClosure.call
-  simp only [h1, h2, h3, Bool.true_and, if_true]
-
 theorem installG_eq (g : Glue) (hg : GlueOk g = true) (c : SContent) :
     installG g true c = .ok (installJac c) := by
-  obtain ⟨_, _, h3, h4, h5, h6, _, h8⟩ := flags_of_ok g hg
+  obtain ⟨_, _, _, _, _, _, _, _, _, _, h3, h4, h5, h6, _⟩ := glueOk_facts g hg
+  have h8 := aligned_of_ok g hg
   unfold installG
   simp only [h3, h4, h5, h6, h8, Bool.not_true, Bool.false_and, Bool.false_eq_true, if_false, Bool.or_self,
     Bool.and_self, if_true]
   cases installJac c <;> rfl
+
+/-- with the facts of the repaired source: when the remembered cache object is the current one and the values are the
+    remembered ones the closure is used as it is; otherwise it is compiled again for the current content, and what the
+    closure remembers changes only if that succeeds -/
+theorem callG_unfold (g : Glue) (hg : GlueOk g = true) (cl : JacClosure) (clVer : Nat) (now : SContent) (nowVer : Nat)
+    (t : Rat) (xs : List Rat) :
+    cl.callG g clVer now nowVer t xs =
+      (match jacArgs now with
+       | .error e => ((cl, clVer), .error e)
+       | .ok (_, _, values) =>
+         if (values != cl.vals || nowVer != clVer) then
+           match compileJac now with
+           | .error e => ((cl, clVer), .error e)
+           | .ok f => ((({ fn := f, vals := values } : JacClosure), nowVer), evalJacFn f t xs values)
+         else ((cl, clVer), evalJacFn cl.fn t xs values)) := by
+  obtain ⟨_, _, _, _, _, hw, hsc, hcb, h1, h2, _⟩ := glueOk_facts g hg
+  have h3 := passesCurrent_of_ok g hg
+  unfold JacClosure.callG
+  simp only [h1, h2, h3, hw, hsc, hcb, Bool.true_and, if_true]
+  rfl
 
 /-! ### parameter updates leave everything but the parameter values alone, and never turn a plain
     parameter back into a computed one -/
@@ -224,44 +243,109 @@ theorem call_state (cl cl' : JacClosure) (now : SContent) (t : Rat) (xs : List R
 
 /-! ### histories -/
 
-/-- what the integrator holds (a closure, or nothing) is what `_initialise_integrator` gives on some content from
-    which the current one differs by parameter updates only -/
+/-- what the integrator holds (a closure, or nothing) is what `_initialise_integrator` gives on some content `c0`; and
+    as long as the model has not been edited since (same cache object), its content still is `c0` -/
 def SimInv (s : SimState) : Prop :=
-  ∃ c0, installJac c0 = s.jac ∧ ParUpd c0 s.content
+  ∃ c0, installJac c0 = s.jac.map (·.1) ∧
+    ∀ cl ver, s.jac = some (cl, ver) → ver ≤ s.version ∧ (ver = s.version → s.content = c0)
 
 /-- what the outputs of a history must be: every matrix handed to the integrator is what `jac_fn` of a
     Simulator built on the model's content at that moment returns (hence, for a well-formed model, `D` of its
     equations at the state passed and the model's current parameter values); the integrator runs without a
-    Jacobian only if the conversion failed when the integrator was last built -/
+    Jacobian only if a conversion failed when the integrator was built -/
 def GoodOuts : SContent → List SimOp → List SimOut → Prop
   | _, [], [] => True
-  | c, .setPar k v :: ops, none :: outs => GoodOuts (c.setPar k v) ops outs
-  | c, .reinit :: ops, none :: outs => GoodOuts c ops outs
-  | c, .call _ _ :: ops, some none :: outs =>
-      (∃ c0, ParUpd c0 c ∧ installJac c0 = none) ∧ GoodOuts c ops outs
-  | c, .call t xs :: ops, some (some J) :: outs =>
+  | c, .setPar k v :: ops, .upd :: outs => GoodOuts (c.setPar k v) ops outs
+  | _, .edit c' :: ops, .upd :: outs => GoodOuts c' ops outs
+  | c, .reinit :: ops, .upd :: outs => GoodOuts c ops outs
+  | c, .call _ _ :: ops, .noJac :: outs =>
+      (∃ c0, installJac c0 = none) ∧ GoodOuts c ops outs
+  | c, .call t xs :: ops, .mat J :: outs =>
       (callJac c t xs = .ok (some J) ∧
        (c.wf = true → ∃ cache es, createCache c.toContent = .ok cache ∧ toSymbolic c = .ok es ∧
           J = (jacobianOf es cache.varNames).map fun row => row.map (evalS (symEnv c cache xs)))) ∧
       GoodOuts c ops outs
+  -- a call that raises hands nothing over (allowed by the property); the history goes on
+  | c, .call _ _ :: ops, .raised :: outs => GoodOuts c ops outs
   | _, _, _ => False
+
+/-- one call with the facts of the repaired source: a returned matrix is the fresh one; whatever happens (also when the
+    call raises), the closure afterwards is the old one or one installed on the current content -/
+theorem callG_sound (g : Glue) (hg : GlueOk g = true) (c0 now : SContent) (cl : JacClosure) (clVer nowVer : Nat)
+    (t : Rat) (xs : List Rat) (hi : installJac c0 = some cl) (hsame : clVer = nowVer → now = c0) :
+    (∀ J, (cl.callG g clVer now nowVer t xs).2 = .ok J → callJac now t xs = .ok (some J)) ∧
+    ((cl.callG g clVer now nowVer t xs).1 = (cl, clVer) ∨
+     (installJac now = some (cl.callG g clVer now nowVer t xs).1.1 ∧ (cl.callG g clVer now nowVer t xs).1.2 = nowVer)) := by
+  rw [callG_unfold g hg]
+  cases hja : jacArgs now with
+  | error err => exact ⟨fun J h => by simp at h, Or.inl rfl⟩
+  | ok args =>
+    obtain ⟨vn, pn, values⟩ := args
+    simp only []
+    by_cases hver : clVer = nowVer
+    · -- the model has not been edited: its content is the one compiled for, and so are the values
+      have hnow := hsame hver
+      obtain ⟨vn0, pn0, hv0⟩ := installJac_vals c0 cl hi
+      have hvals : values = cl.vals := by
+        rw [hnow] at hja
+        rw [hja] at hv0
+        simp only [Except.ok.injEq, Prod.mk.injEq] at hv0
+        exact hv0.2.2
+      have hb : (values != cl.vals || nowVer != clVer) = false := by simp [hvals, hver]
+      simp only [hb, Bool.false_eq_true, if_false]
+      refine ⟨?_, Or.inl (by simp)⟩
+      intro J hJ
+      have hcall : cl.call now t xs = .ok (cl, J) := by
+        unfold JacClosure.call
+        have hb' : (values != cl.vals) = false := by simp [hvals]
+        simp only [hja, bind, Except.bind, hb', Bool.false_eq_true, if_false, pure, Except.pure, hJ]
+      exact closure_follows c0 now cl cl t xs J hi (Or.inl hnow) hcall
+    · have hb : (values != cl.vals || nowVer != clVer) = true := by
+        have : (nowVer != clVer) = true := by simpa using fun h' => hver h'.symm
+        simp [this]
+      simp only [hb, if_true]
+      cases hf : compileJac now with
+      | error err => exact ⟨fun J h => by simp at h, Or.inl (by simp)⟩
+      | ok f =>
+        simp only []
+        refine ⟨?_, Or.inr ⟨installJac_of_compile now f vn pn values hf hja, by simp⟩⟩
+        intro J hJ
+        exact callJac_of_compile now t xs f vn pn values J hja hf hJ
 
 theorem step_inv (g : Glue) (hg : GlueOk g = true) (s s' : SimState) (op : SimOp) (o : SimOut)
     (hinv : SimInv s) (h : s.stepG g op = .ok (s', o)) :
     SimInv s' ∧ GoodOuts s.content [op] [o] ∧ s'.content = op.after s.content := by
-  obtain ⟨c0, hi, hp⟩ := hinv
+  obtain ⟨c0, hi, hc⟩ := hinv
   cases op with
   | setPar k v =>
     simp only [SimState.stepG, Except.ok.injEq, Prod.mk.injEq] at h
     obtain ⟨h1, h2⟩ := h
     subst h1 h2
-    exact ⟨⟨c0, hi, ParUpd.step c0 s.content k v hp⟩, by simp [GoodOuts], rfl⟩
+    refine ⟨⟨c0, hi, ?_⟩, by simp [GoodOuts], rfl⟩
+    intro cl ver hj
+    have := (hc cl ver hj).1
+    exact ⟨by simp only; omega, fun hv => by simp only at hv; omega⟩
+  | edit c' =>
+    simp only [SimState.stepG, Except.ok.injEq, Prod.mk.injEq] at h
+    obtain ⟨h1, h2⟩ := h
+    subst h1 h2
+    refine ⟨⟨c0, hi, ?_⟩, by simp [GoodOuts], rfl⟩
+    intro cl ver hj
+    have := (hc cl ver hj).1
+    exact ⟨by simp only; omega, fun hv => by simp only at hv; omega⟩
   | reinit =>
     simp only [SimState.stepG, installG_eq g hg, bind, Except.bind, pure, Except.pure, Except.ok.injEq,
       Prod.mk.injEq] at h
     obtain ⟨h1, h2⟩ := h
     subst h1 h2
-    exact ⟨⟨s.content, rfl, ParUpd.refl _⟩, by simp [GoodOuts], rfl⟩
+    refine ⟨⟨s.content, ?_, ?_⟩, by simp [GoodOuts], rfl⟩
+    · cases installJac s.content <;> simp
+    · intro cl ver hj
+      cases hij : installJac s.content with
+      | none => simp [hij] at hj
+      | some cl0 =>
+        simp only [hij, Option.map_some, Option.some.injEq, Prod.mk.injEq] at hj
+        exact ⟨by rw [← hj.2]; exact Nat.le_refl _, fun _ => rfl⟩
   | call t xs =>
     simp only [SimState.stepG] at h
     cases hj : s.jac with
@@ -269,52 +353,52 @@ theorem step_inv (g : Glue) (hg : GlueOk g = true) (s s' : SimState) (op : SimOp
       simp only [hj, Except.ok.injEq, Prod.mk.injEq] at h
       obtain ⟨h1, h2⟩ := h
       subst h1 h2
-      refine ⟨⟨c0, hi, hp⟩, ?_, rfl⟩
+      refine ⟨⟨c0, hi, hc⟩, ?_, rfl⟩
       simp only [GoodOuts, and_true]
-      exact ⟨c0, hp, by rw [hi, hj]⟩
-    | some cl =>
+      exact ⟨c0, by rw [hi, hj]; rfl⟩
+    | some clv =>
+      obtain ⟨cl, ver⟩ := clv
       rw [hj] at hi
-      simp only [hj, callG_eq_call g hg, bind, Except.bind] at h
-      cases hc : cl.call s.content t xs with
-      | error e => simp [hc] at h
-      | ok r =>
-        obtain ⟨cl', J⟩ := r
-        simp only [hc, pure, Except.pure, Except.ok.injEq, Prod.mk.injEq] at h
-        obtain ⟨h1, h2⟩ := h
-        subst h1 h2
-        obtain ⟨vn0, pn0, hv0⟩ := installJac_vals c0 cl hi
-        rcases call_state cl cl' s.content t xs J hc with ⟨hsame, vn, pn, hvals⟩ | ⟨hinst, hne⟩
-        · -- not recompiled: the content is the one compiled for
-          have hnow : s.content = c0 := ParUpd.same c0 s.content hp vn0 pn0 vn pn cl.vals hv0 hvals
-          have hJ := closure_follows c0 s.content cl cl' t xs J hi (Or.inl hnow) hc
-          refine ⟨⟨c0, by rw [hsame]; exact hi, hp⟩, ?_, rfl⟩
+      simp only [Option.map_some] at hi
+      simp only [hj, Except.ok.injEq, Prod.mk.injEq] at h
+      obtain ⟨h1, h2⟩ := h
+      subst h1 h2
+      obtain ⟨hle, hsame⟩ := hc cl ver hj
+      obtain ⟨hJ, hst⟩ := callG_sound g hg c0 s.content cl ver s.version t xs hi hsame
+      refine ⟨?_, ?_, rfl⟩
+      · rcases hst with hkeep | ⟨hinst, hver⟩
+        · refine ⟨c0, by simp only [hkeep, Option.map_some]; exact hi, ?_⟩
+          intro cl' ver' hj'
+          simp only [hkeep, Option.some.injEq, Prod.mk.injEq] at hj'
+          rw [← hj'.2]
+          exact ⟨hle, hsame⟩
+        · refine ⟨s.content, by simp [hinst], ?_⟩
+          intro cl' ver' hj'
+          simp only [Option.some.injEq] at hj'
+          have hv2 : ver' = s.version := by rw [← hver, hj']
+          exact ⟨by rw [hv2]; exact Nat.le_refl _, fun _ => rfl⟩
+      · cases hr : (cl.callG g ver s.content s.version t xs).2 with
+        | error e => simp [GoodOuts]
+        | ok J =>
           simp only [GoodOuts, and_true]
-          exact ⟨hJ, fun hwf => jacfn_sound s.content hwf t xs J hJ⟩
-        · have hJ := closure_follows c0 s.content cl cl' t xs J hi (Or.inr hne) hc
-          refine ⟨⟨s.content, hinst, ParUpd.refl _⟩, ?_, rfl⟩
-          simp only [GoodOuts, and_true]
-          exact ⟨hJ, fun hwf => jacfn_sound s.content hwf t xs J hJ⟩
+          exact ⟨hJ J hr, fun hwf => jacfn_sound s.content hwf t xs J (hJ J hr)⟩
 
 theorem goodOuts_cons (c : SContent) (op : SimOp) (o : SimOut) (ops : List SimOp) (outs : List SimOut)
-    (h1 : GoodOuts c [op] [o])
-    (h2 : GoodOuts (op.after c) ops outs) :
+    (h1 : GoodOuts c [op] [o]) (h2 : GoodOuts (op.after c) ops outs) :
     GoodOuts c (op :: ops) (o :: outs) := by
   cases op with
-  | setPar k v => cases o with
-    | none => simpa [GoodOuts, SimOp.after] using h2
-    | some _ => simp [GoodOuts] at h1
-  | reinit => cases o with
-    | none => simpa [GoodOuts, SimOp.after] using h2
-    | some _ => simp [GoodOuts] at h1
+  | setPar k v => cases o <;> first | (simpa [GoodOuts, SimOp.after] using h2) | (simp [GoodOuts] at h1)
+  | edit c' => cases o <;> first | (simpa [GoodOuts, SimOp.after] using h2) | (simp [GoodOuts] at h1)
+  | reinit => cases o <;> first | (simpa [GoodOuts, SimOp.after] using h2) | (simp [GoodOuts] at h1)
   | call t xs => cases o with
-    | none => simp [GoodOuts] at h1
-    | some oo => cases oo with
-      | none =>
-        simp only [GoodOuts, and_true] at h1
-        exact ⟨h1, h2⟩
-      | some J =>
-        simp only [GoodOuts, and_true] at h1
-        exact ⟨h1, h2⟩
+    | upd => simp [GoodOuts] at h1
+    | noJac =>
+      simp only [GoodOuts, and_true] at h1
+      exact ⟨h1, h2⟩
+    | mat J =>
+      simp only [GoodOuts, and_true] at h1
+      exact ⟨h1, h2⟩
+    | raised => simpa [GoodOuts, SimOp.after] using h2
 
 theorem run_good (g : Glue) (hg : GlueOk g = true) : ∀ (ops : List SimOp) (s s' : SimState) (outs : List SimOut),
     SimInv s → runG g s ops = .ok (s', outs) → GoodOuts s.content ops outs ∧ SimInv s' := by
@@ -346,16 +430,24 @@ theorem run_good (g : Glue) (hg : GlueOk g = true) : ∀ (ops : List SimOp) (s s
         rw [hcont] at hgood
         exact ⟨goodOuts_cons s.content op o ops os hgood1 hgood, hinv2⟩
 
-/-- **every history**: build the Simulator on `c`, apply any sequence of parameter updates, re-initialisations
-    and Jacobian calls; every matrix the integrator receives is `jac_fn` of a fresh Simulator on the content the
-    model has at that moment -/
+/-- **every history**: build the Simulator on `c`, apply any sequence of parameter updates, other edits of the model,
+    re-initialisations and Jacobian calls; every matrix the integrator receives is `jac_fn` of a fresh Simulator on the
+    content the model has at that moment -/
 theorem sim_history (g : Glue) (hg : GlueOk g = true) (c : SContent) (ops : List SimOp) (s0 s : SimState)
     (outs : List SimOut) (h0 : simInitG g c = .ok s0) (hr : runG g s0 ops = .ok (s, outs)) :
     GoodOuts c ops outs := by
   unfold simInitG at h0
   simp only [installG_eq g hg, bind, Except.bind, pure, Except.pure, Except.ok.injEq] at h0
   subst h0
-  have hinv : SimInv { content := c, jac := installJac c } := ⟨c, rfl, ParUpd.refl _⟩
+  have hinv : SimInv { content := c, version := 0, jac := (installJac c).map fun cl => (cl, 0) } := by
+    refine ⟨c, ?_, ?_⟩
+    · cases installJac c <;> simp
+    · intro cl ver hj
+      cases hij : installJac c with
+      | none => simp [hij] at hj
+      | some cl0 =>
+        simp only [hij, Option.map_some, Option.some.injEq, Prod.mk.injEq] at hj
+        exact ⟨by rw [← hj.2]; exact Nat.le_refl _, fun _ => rfl⟩
   exact (run_good g hg ops _ s outs hinv hr).1
 
 end Mxl.C12
